@@ -20,9 +20,12 @@
 
 from __future__ import annotations
 
+from copy import deepcopy
 from typing import TYPE_CHECKING
 from typing import ClassVar
 
+from numpy import array_equal
+from numpy import ndarray as np_ndarray
 from strenum import LowercaseStrEnum
 from strenum import StrEnum
 
@@ -97,6 +100,7 @@ class MDOChain(ProcessDiscipline):
         super().__init__(disciplines, name=name)
         self._coupling_structure = None
         self._last_diff_inouts = None
+        self.__last_executed_input_data = None
         self._initialize_grammars()
 
     def _initialize_grammars(self) -> None:
@@ -111,8 +115,39 @@ class MDOChain(ProcessDiscipline):
             self.io.output_grammar.update(discipline.io.output_grammar)
 
     def _execute(self) -> None:
+        self.__last_executed_input_data = deepcopy(self.io.get_input_data())
         for discipline in self.disciplines:
             self.io.data.update(discipline.execute(self.io.data))
+
+    def __are_disciplines_up_to_date(self) -> bool:
+        """Check whether the disciplines were last executed from the current input data.
+
+        This is not the case
+        when the output data of the chain have been loaded from its cache.
+
+        Returns:
+            Whether the disciplines were last executed from the current input data.
+        """
+        last_input_data = self.__last_executed_input_data
+        if last_input_data is None:
+            return False
+
+        input_data = self.io.get_input_data()
+        if input_data.keys() != last_input_data.keys():
+            return False
+
+        try:
+            for name, value in input_data.items():
+                last_value = last_input_data[name]
+                if isinstance(value, np_ndarray) or isinstance(last_value, np_ndarray):
+                    if not array_equal(value, last_value):
+                        return False
+                elif value != last_value:
+                    return False
+        except (TypeError, ValueError):
+            return False
+
+        return True
 
     def reverse_chain_rule(
         self,
@@ -221,6 +256,12 @@ class MDOChain(ProcessDiscipline):
         output_names: Iterable[str] = (),
     ) -> None:
         self._compute_diff_in_outs(input_names, output_names)
+
+        if not self.__are_disciplines_up_to_date():
+            # The disciplines are linearized at their last execution point,
+            # which is not the current one
+            # when the output data of the chain have been loaded from its cache.
+            self._execute()
 
         # Initializes self jac with copy of last discipline (reverse mode)
         last_discipline = self.disciplines[-1]
